@@ -118,7 +118,7 @@ func VerifC12Scan(m1 int, m2 int, race int) {
 	add("b", m2)
 	var scanned storage.Store = st
 	var fresh []rec
-	if race != 0 {
+	if race == 1 {
 		// only meaningful when a brand-new message is younger than the period
 		vrf.Assume(int64(period) > 0)
 		scanned = &racingStore{Store: st, fresh: func(box string) {
@@ -126,6 +126,27 @@ func VerifC12Scan(m1 int, m2 int, race int) {
 			id, aerr := st.AddMessage(&inMsg{mailbox: box, date: d})
 			if aerr == nil {
 				fresh = append(fresh, rec{box, id, d})
+			}
+		}}
+	}
+	clientRemoved := map[string]bool{}
+	if race == 2 {
+		// the message the client removes is one the scanner wants to remove as well, whatever the
+		// clock does during the scan (so that a counterexample does not depend on a clock jump
+		// that a native replay cannot reproduce)
+		for i, r := range recs {
+			if i == 0 || recs[i-1].box != r.box {
+				vrf.Assume(r.date.Before(t0.Add(-period)))
+			}
+		}
+		// a client deletes the first message of each mailbox right after the scanner took its
+		// snapshot of that mailbox: the scanner then gets "does not exist" for it and must carry on
+		scanned = &racingStore{Store: st, fresh: func(box string) {
+			ms, _ := st.GetMessages(box)
+			if len(ms) > 0 {
+				if st.RemoveMessage(box, ms[0].ID()) == nil {
+					clientRemoved[box+"/"+ms[0].ID()] = true
+				}
 			}
 		}}
 	}
@@ -142,6 +163,10 @@ func VerifC12Scan(m1 int, m2 int, race int) {
 		if r.date.Before(oldCut) {
 			vrf.CoverIf("expired-message", true)
 			vrf.Assert("expired-removed", !present)
+		}
+		if clientRemoved[r.box+"/"+r.id] {
+			vrf.CoverIf("racing-removal", true)
+			continue
 		}
 		if r.date.After(newCut) {
 			vrf.CoverIf("young-message", true)
